@@ -19,6 +19,7 @@
  */
 #include "async_sink.h"
 
+#include <cstdarg>
 #include <cstring>
 #include <algorithm>
 #include <iostream>
@@ -94,28 +95,20 @@ void AsyncSink::onLogBackEndReadPipe(const void *data_ptr, size_t data_size)
 
 void AsyncSink::onLogBackEnd(const LogContent &content)
 {
-    char buff[1024];
-    size_t len = 0;
-
     updateTimestampStr(content.timestamp.sec);
 
     //! 开启色彩，显示日志等级
-    if (enable_color_) {
-        len = snprintf(buff, sizeof(buff), "\033[%sm", LOG_LEVEL_COLOR_CODE[content.level]);
-        append(buff, len);
-    }
+    if (enable_color_)
+        appendFormat("\033[%sm", LOG_LEVEL_COLOR_CODE[content.level]);
 
     //! 打印等级、时间戳、线程号、模块名
-    len = snprintf(buff, sizeof(buff), "%c %s.%06u %ld %s ",
+    appendFormat("%c %s.%06u %ld %s ",
             LOG_LEVEL_LEVEL_CODE[content.level],
             timestamp_str_, content.timestamp.usec,
             content.thread_id, content.module_id);
-    append(buff, len);
 
-    if (content.func_name != nullptr) {
-        len = snprintf(buff, sizeof(buff), "%s() ", content.func_name);
-        append(buff, len);
-    }
+    if (content.func_name != nullptr)
+        appendFormat("%s() ", content.func_name);
 
     if (content.text_len > 0) {
         append(content.text_ptr, content.text_len);
@@ -127,10 +120,8 @@ void AsyncSink::onLogBackEnd(const LogContent &content)
         append(tip, ::strlen(tip));
     }
 
-    if (content.file_name != nullptr) {
-        len = snprintf(buff, sizeof(buff), "-- %s:%d",  content.file_name, content.line);
-        append(buff, len);
-    }
+    if (content.file_name != nullptr)
+        appendFormat("-- %s:%d",  content.file_name, content.line);
 
     if (enable_color_) {
         append("\033[0m", 4);
@@ -149,6 +140,33 @@ void AsyncSink::append(const char *str, size_t len)
 void AsyncSink::append(char ch)
 {
     cache_.push_back(ch);
+}
+
+void AsyncSink::appendFormat(const char *fmt, ...)
+{
+    char buff[1024];
+
+    va_list args;
+    va_start(args, fmt);
+    int len = vsnprintf(buff, sizeof(buff), fmt, args);
+    va_end(args);
+
+    if (len < 0)
+        return;
+
+    if (static_cast<size_t>(len) < sizeof(buff)) {
+        append(buff, len);
+        return;
+    }
+
+    //! the text does not fit buff (a very long module, function or file name): buff holds only
+    //! the first sizeof(buff) - 1 characters of it, format it again straight into the cache
+    size_t old_size = cache_.size();
+    cache_.resize(old_size + len + 1);
+    va_start(args, fmt);
+    vsnprintf(cache_.data() + old_size, static_cast<size_t>(len) + 1, fmt, args);
+    va_end(args);
+    cache_.pop_back();  //! the terminating '\0'
 }
 
 }
